@@ -122,6 +122,9 @@ def run(ctx):
   rank_flow(ctx)
   application(ctx)
   low_rank_root(ctx)
+  # the packed root must be the root of the UNPADDED statistic: mask prologue / cast-back shared with the dense routines
+  from . import C01
+  C01.siblings(ctx)
 
 
 def slot_table(ctx):
@@ -238,43 +241,54 @@ def wrappers(ctx):
 
 
 def predicates(ctx):
+  """R2: `_precond_dim(r, d) < d` <=> `_should_compress(r, d)` for all integers r, d >= 1, and the compressed width is |r| + 2.
+  Both one-line integer functions are interpreted abstractly (pvstatic.imp) over the atoms |r| and d; the equivalence is
+  decided by entailment in the zone domain, path by path."""
+  import sympy as sp
+  from ..imp import Interp, Facts
   m = ctx.model
   fd = m.func(MOD, '_precond_dim')
   fs = m.func(MOD, '_should_compress')
   ctx.analysed(fd, fs)
-  for zero, rel in itertools.product([True, False], ['<', '==', '>']):
-    def extra(c, zero=zero, rel=rel):
-      c0 = strip_casts(c)
-      if c0.op == 'sym' and c0.args[-1] == 'compression_rank':
-        return not zero
-      if c0.op == 'cmp':
-        o, a, b = c0.args
-        sa, sb = show(a, maxdepth=4), show(b, maxdepth=4)
-        if 'compression_rank' in sa and is_const(b, 0) and o in ('!=', '=='):
-          return (not zero) if o == '!=' else zero
-        # comparison between |r|+2 and dim
-        if ("builtin('abs')" in sa or 'compressed_size' in sa) and 'dim' in sb:
-          return {'<': rel == '<', '<=': rel in ('<', '=='), '>': rel == '>', '>=': rel in ('>', '=='), '==': rel == '==', '!=': rel != '=='}[o]
-      return None
-    ev = evaluator(m, decide=Decider(extra=extra))
-    rd = ev.run(fd)
-    rs = ev.run(fs)
-    dim = sym('param', fd.short, 'dim')
-    less = rd is not dim
-    if rd is not dim and not (rd.op == 'bin' or rd.op == 'call'):
-      raise AnalysisError(f'_precond_dim returned an unexpected value: {show(rd, maxdepth=3)}')
-    ds = ev.decide(rs)
-    if ds is None:
-      raise AnalysisError(f'_should_compress not decided on state zero={zero}, rel={rel}: {show(rs, maxdepth=4)}')
-    want = (not zero) and rel == '<'
-    ctx.ob('C10.R2', fs.short, f'state r==0:{zero}, |r|+2 {rel} d', ds == less == want,
-           f'_precond_dim(r, d) < d is {less}, _should_compress(r, d) is {ds}; both must be {want} (compress iff r != 0 and |r| + 2 < d)',
-           ctx.loc(fs), sample=f'r==0:{zero}, |r|+2 {rel} d -> {want}')
-    if less:
-      cmpr = Comparer()
-      exp = spec_term(ev, 'abs(r) + 2', {'r': sym('param', fd.short, 'compression_rank')})
-      ctx.ob('C10.R2', fd.short, f'compressed width |r| + 2 [{rel}]', cmpr.same(rd, exp), f'compressed width must be |r| + 2; got `{cmpr.fmt(rd)}`', ctx.loc(fd),
-             sample='|r| + 2')
+  r = sp.Symbol('r', integer=True)
+  d = sp.Symbol('d', integer=True, positive=True)
+  pd_paths = Interp(fd.node, params={'compression_rank': r, 'dim': d}).run()
+  sc_paths = Interp(fs.node, params={'compression_rank': r, 'dim': d}).run()
+  if not pd_paths or not sc_paths:
+    raise AnalysisError('_precond_dim / _should_compress: no path returns')
+  ip = Interp(fs.node)
+  n = 0
+  for p1, v1 in pd_paths:
+    if not isinstance(v1, sp.Basic):
+      raise AnalysisError('_precond_dim does not return a number')
+    for p2, v2 in sc_paths:
+      rel = ip.truth(v2)
+      base = Facts(p1.facts.items + [it for it in p2.facts.items if it not in p1.facts.items])
+      # r == 0  <=>  |r| == 0 (the zone domain treats |r| as an atom)
+      for zero in (True, False):
+        f0 = base.copy()
+        if zero:
+          f0.add('eq', r)
+          f0.add('eq', sp.Abs(r))
+        else:
+          f0.add('ne', r)
+          f0.add('le', 1 - sp.Abs(r))
+        if f0.infeasible():
+          continue
+        for holds in (True, False):
+          for f in f0.assume(rel if holds else Facts.negate(rel)):
+            n += 1
+            less = sp.Lt(v1, d, evaluate=False) if v1 != d else sp.false
+            want_less = f.entails(less) if holds else f.entails(Facts.negate(less)) if less is not sp.false else True
+            if holds and less is sp.false:
+              want_less = False
+            ctx.ob('C10.R2', fs.short, f'_should_compress {"true" if holds else "false"} => _precond_dim {"<" if holds else "=="} d [r==0:{zero}]', bool(want_less),
+                   f'on a path where _should_compress(r, d) is {holds} (facts {[(k, str(e)) for k, e in f.items][-3:]}), _precond_dim returns `{v1}`, '
+                   f'which is {"not known to be smaller than d" if holds else "not known to equal d"}: the packed buffer width and the compression decision disagree',
+                   ctx.loc(fs), sample=f'compress={holds}: width {v1}')
+    if v1 != d:
+      ctx.ob('C10.R2', fd.short, 'compressed width |r| + 2', sp.expand(v1 - sp.Abs(r) - 2) == 0, f'compressed width must be |r| + 2; got `{v1}`', ctx.loc(fd), sample='|r| + 2')
+  ctx.need('C10.R2', n, 3, 'feasible (width path, decision) combinations')
 
 
 def rank_flow(ctx):
